@@ -1,10 +1,11 @@
-(* Capstone over the generated texts of Market._update_time, _add_order, _cancel_order and _execute_orders (TickGen, AddGen, CancelGen,
-   FillGen - all regenerated from /repo on every run): the step function of Level M assembled from the SOURCE's own statements is the
+(* Capstone over the generated texts of Market._update_time, _add_order, _cancel_order, _execute_orders and of the walk of _execution
+   (TickGen, AddGen, CancelGen, FillGen, WalkGen - all regenerated from /repo on every run): the step function of Level M assembled from the SOURCE's own statements is the
    model's step_rec on every state satisfying the book invariant, so every Level-M theorem about sequences of operations is a theorem about
    sequences of the generated functions. *)
 Require Import Pams.Prelude Pams.Tick Pams.Match Pams.Market Pams.MarketInv Pams.MarketAcct Pams.OrderPy.
-Require Import PamsGen.TickGen PamsGen.FillGen PamsGen.AddGen PamsGen.CancelGen.
-Require Import PamsGen.TickC06Proofs PamsGen.FillC08Proofs PamsGen.AddC04Proofs PamsGen.CancelC04Proofs.
+Require Import Pams.WalkPy.
+Require Import PamsGen.TickGen PamsGen.FillGen PamsGen.AddGen PamsGen.CancelGen PamsGen.WalkGen.
+Require Import PamsGen.TickC06Proofs PamsGen.FillC08Proofs PamsGen.AddC04Proofs PamsGen.CancelC04Proofs PamsGen.WalkC01Proofs.
 From Coq Require Import Lia.
 From RecordUpdate Require Import RecordSet.
 Import RecordSetNotations.
@@ -19,12 +20,19 @@ Fixpoint fills_src (p : Q) (m : market) (fs : list fillq) : result (market * lis
                        Ok (m2, x :: xs)
   end.
 
-(* Market._execution with the hand-modelled walk and the generated application of the fills *)
+(* Market._execution: the generated statements before the loop, the generated loop body iterated (with the model's fuel for these books),
+   the generated application of the fills; the executability test before and after is the model's (tied by the second translator) *)
 Definition execution_src (m : market) : result (market * list record) :=
   if negb (executable m) then Ok (m, []) else
-  match run_walk m with
-  | (None, _) => Err EAssertPrice
-  | (Some p, fs) => do (m', logs) <- fills_src p m fs; if executable m' then Err EAssertPost else Ok (m', logs)
+  do w0 <- walk_init_gen (m_buys m) (m_sells m);
+  match iter (walk_fuel m) w0 with
+  | Err e => Err e
+  | Ok None => Err EAssertWalk
+  | Ok (Some w') =>
+      match w_p w' with
+      | None => Err EAssertPrice
+      | Some p => do (m', logs) <- fills_src p m (w_pend w'); if executable m' then Err EAssertPost else Ok (m', logs)
+      end
   end.
 
 (* the order object a cancel names: the order with that id as the market holds it *)
@@ -85,11 +93,20 @@ Proof.
            rewrite (gen_cancel_order_is_cancel_order m x Ht Hm); [reflexivity|]. right. right. repeat split; assumption.
         -- unfold cancel_order. destruct (m_time m <? 0) eqn:E; [lia|]. rewrite Eb, Es, Eg. reflexivity.
   - (* a matching round *) cbn [step_src step_rec]. unfold execution_src, execution.
-    destruct (negb (executable m)); [reflexivity|]. destruct (run_walk m) as [[p|] fs] eqn:Ew; [|reflexivity].
+    destruct (negb (executable m)) eqn:Ex; [reflexivity|].
+    assert (Pb : Forall WalkC01Proofs.pos (m_buys m)).
+    { rewrite Forall_forall. intros x Hx. exact (proj1 (proj2 (proj2 (proj1 (Forall_forall _ _) (so_elems _ _ _ _ _ HB) x Hx)))). }
+    assert (Ps : Forall WalkC01Proofs.pos (m_sells m)).
+    { rewrite Forall_forall. intros x Hx. exact (proj1 (proj2 (proj2 (proj1 (Forall_forall _ _) (so_elems _ _ _ _ _ HS) x Hx)))). }
+    assert (Hne : m_buys m <> []).
+    { intros E. apply Bool.negb_false_iff in Ex. unfold executable, executable_b in Ex. rewrite E in Ex. destruct (m_sells m); discriminate. }
+    destruct (gen_loop_stops_with_the_models_result (m_buys m) (m_sells m) Pb Ps Hne) as [w0 [w' [E0 [Ei [Ew _]]]]].
+    rewrite E0. cbn [bind]. unfold walk_fuel. rewrite Ei. unfold run_walk, walk_fuel. rewrite Ew.
+    destruct (w_p w') as [p|]; [|reflexivity].
     rewrite fills_src_is_apply_fills; [reflexivity|].
     assert (Hin : Forall (fun f => In (fbuy f) (m_buys m) /\ In (fsell f) (m_sells m)) (snd (run_walk m))).
     { unfold run_walk. apply (walk_fills_from Q qltb); simpl; auto using incl_refl. }
-    rewrite Ew in Hin. cbn [snd] in Hin. rewrite Forall_forall in *. intros f Hf. destruct (Hin f Hf) as [Ib Is]. split.
+    unfold run_walk, walk_fuel in Hin. rewrite Ew in Hin. cbn [snd] in Hin. rewrite Forall_forall in *. intros f Hf. destruct (Hin f Hf) as [Ib Is]. split.
     + exact (proj1 (proj2 (proj2 (proj2 (proj1 (Forall_forall _ _) (so_elems _ _ _ _ _ HB) _ Ib))))).
     + exact (proj1 (proj2 (proj2 (proj2 (proj1 (Forall_forall _ _) (so_elems _ _ _ _ _ HS) _ Is))))).
   - (* a clock step *) cbn [step_src step_rec]. rewrite gen_update_time_is_tick. reflexivity.
